@@ -1,4 +1,5 @@
 import GqlProofs.Validate.Compose
+import GqlProofs.Validate.WalkTerm
 /-
   C18 — rule sets compose.
 
@@ -31,16 +32,14 @@ theorem C18_errors_tagged (rs : List Rule) (s : Schema) (d : QueryDoc) (errs : L
 
 /-- conversely, a rule list returns normally as soon as every member does when run alone (a
     panic of the whole is the panic of some member) -/
-theorem C18_ok_of_members (rs : List Rule) (s : Schema) (d : QueryDoc) (hne : rs ≠ [])
+theorem C18_ok_of_members (rs : List Rule) (s : Schema) (d : QueryDoc)
     (h : ∀ r ∈ rs, ∃ e, validate [r] s d = .ok e) : ∃ errs, validate rs s d = .ok errs := by
   unfold validate at *
   cases hw : walkDoc s.view d with
   | none =>
-    cases rs with
-    | nil => exact absurd rfl hne
-    | cons r _ =>
-      obtain ⟨e, he⟩ := h r List.mem_cons_self
-      simp [validateV, hw] at he
+    obtain ⟨evs, he⟩ := walkDoc_isSome s.view d
+    rw [hw] at he
+    cases he
   | some evs =>
     have hs : ∀ q ∈ rs.map Rule.start, ∃ x, runAll s.view d [q] evs = .ok x := by
       intro q hq
@@ -59,14 +58,9 @@ theorem C18_perm (rs rs' : List Rule) (s : Schema) (d : QueryDoc) (errs : List E
     (hp : rs.Perm rs') (hdistinct : (rs.map (·.name)).Nodup) (h : validate rs s d = .ok errs) :
     ∃ errs', validate rs' s d = .ok errs' ∧ errs.Perm errs' := by
   have hd' : (rs'.map (·.name)).Nodup := (hp.map _).nodup_iff.1 hdistinct
-  by_cases hne : rs' = []
-  · subst hne
-    have : rs = [] := List.Perm.eq_nil hp
-    subst this
-    exact ⟨errs, h, List.Perm.refl _⟩
   have hmem : ∀ r ∈ rs', ∃ e, validate [r] s d = .ok e :=
     fun r hr => ⟨_, C18_union rs s d errs hdistinct h r (hp.mem_iff.2 hr)⟩
-  obtain ⟨errs', h'⟩ := C18_ok_of_members rs' s d hne hmem
+  obtain ⟨errs', h'⟩ := C18_ok_of_members rs' s d hmem
   refine ⟨errs', h', ?_⟩
   rw [List.perm_iff_count]
   intro a
